@@ -44,7 +44,7 @@ with open(pathlib.Path(__file__).resolve().parent.parent / "spec" / "meta_types.
 
 def plan(tier):
     if tier == "quick":
-        return {"runs": 1600, "budget_s": 50, "run_timeout_s": 120, "det_pairs": 3}
+        return {"runs": 3600, "budget_s": 50, "run_timeout_s": 120, "det_pairs": 3}
     return {"runs": 60000, "budget_s": 780, "run_timeout_s": 180, "det_pairs": 3}
 
 
